@@ -394,6 +394,41 @@ func init() {
 		}
 		return r
 	})
+	reg("slices.Sort", func(e *Engine, fn *ssa.Function, a []Value) Value {
+		// symbolic compare-exchange network (bubble sort) for short slices of strings / integers
+		els := sliceElems(a[0])
+		if len(els) > 5 {
+			panic(inconclusive{"slices.Sort of more than 5 symbolic elements"})
+		}
+		if e.inMerged > 0 {
+			panic(mergeAbort{"store to non-local (sort)"})
+		}
+		vals := make([]*T, len(els))
+		for i, l := range els {
+			t, ok := load(l).(*T)
+			if !ok {
+				panic(inconclusive{"slices.Sort of non-scalar elements"})
+			}
+			vals[i] = t
+		}
+		less := func(x, y *T) *T {
+			if x.Sort.K == SStr {
+				return StrLt(x, y)
+			}
+			return BVCmp("bvult", x, y)
+		}
+		for i := 0; i < len(vals); i++ {
+			for j := 0; j+1 < len(vals)-i; j++ {
+				sw := less(vals[j+1], vals[j])
+				lo, hi := Ite(sw, vals[j+1], vals[j]), Ite(sw, vals[j], vals[j+1])
+				vals[j], vals[j+1] = lo, hi
+			}
+		}
+		for i, l := range els {
+			store(l, vals[i])
+		}
+		return nil
+	})
 	reg("slices.Reverse", func(e *Engine, fn *ssa.Function, a []Value) Value {
 		e.effect("reverse")
 		x := sliceElems(a[0])
